@@ -711,6 +711,16 @@ macro_rules! arch_driver {
                     $( o.push($v); )+
                     decide(&o).to_gecs()
                 }),
+                DestroyIterVariant::ViaStep => {
+                    let mut n = 0usize;
+                    ecs_iter_destroy!(w, |e: &Entity<$A>, d: &EntityDirect<$A>, $( $v: &$C ),+| {
+                        tick(Site::Closure);
+                        let mut o = Obs::of(e.to_raw()).with_direct(d.to_dir_any());
+                        $( o.push($v); )+
+                        n += 1;
+                        decide(&o).to_gecs_via_conversions(n % 2 == 0)
+                    })
+                }
                 DestroyIterVariant::Mut => ecs_iter_destroy!(w, |e: &Entity<$A>, d: &EntityDirect<$A>, $( $v: &mut $C ),+| {
                     tick(Site::Closure);
                     let mut o = Obs::of(e.to_raw()).with_direct(d.to_dir_any());
@@ -890,6 +900,62 @@ macro_rules! arch_driver {
                                 body(BObs { raw: Some(e.to_raw()), vals: vec![old] });
                             }
                             n += 1;
+                        });
+                    } i += 1; )+
+                }
+                BKind::FindBorrowAnonS => {
+                    let k = Entity::<$A>::from_any(any(acc.key.expect("entity access needs a key")));
+                    let mut i = 0usize;
+                    $( if i == col {
+                        ecs_find_borrow!(w, k, |_: &$C, e: &Entity<$A>| {
+                            body(BObs { raw: Some(e.to_raw()), vals: vec![] });
+                        });
+                    } i += 1; )+
+                }
+                BKind::FindBorrowAnonM => {
+                    let k = any(acc.key.expect("entity access needs a key"));
+                    let mut i = 0usize;
+                    $( if i == col {
+                        ecs_find_borrow!(w, k, |e: &Entity<$A>, _: &mut $C| {
+                            body(BObs { raw: Some(e.to_raw()), vals: vec![] });
+                        });
+                    } i += 1; )+
+                }
+                BKind::IterBorrowAnonM => {
+                    let mut i = 0usize;
+                    $( if i == col {
+                        let mut n = 0usize;
+                        ecs_iter_borrow!(w, |_: &mut $C, e: &Entity<$A>| {
+                            if n == 0 {
+                                body(BObs { raw: Some(e.to_raw()), vals: vec![] });
+                            }
+                            n += 1;
+                        });
+                    } i += 1; )+
+                }
+                BKind::IterBorrowCrossS => {
+                    let mut i = 0usize;
+                    $( if i == col {
+                        let mut done = false;
+                        ecs_iter_borrow!(w, |e: &EntityAny, c: &$C| {
+                            if !done && e.archetype_id() == <$A as Archetype>::ARCHETYPE_ID {
+                                done = true;
+                                body(BObs { raw: Some(e.to_raw()), vals: vec![c.get()] });
+                            }
+                        });
+                    } i += 1; )+
+                }
+                BKind::IterBorrowCrossM => {
+                    let mut i = 0usize;
+                    $( if i == col {
+                        let mut done = false;
+                        ecs_iter_borrow!(w, |c: &mut $C, e: &EntityAny| {
+                            if !done && e.archetype_id() == <$A as Archetype>::ARCHETYPE_ID {
+                                done = true;
+                                let old = c.get();
+                                c.set(val);
+                                body(BObs { raw: Some(e.to_raw()), vals: vec![old] });
+                            }
                         });
                     } i += 1; )+
                 }
